@@ -3,12 +3,15 @@
 
   For every insertion sequence over the documented range:
     * iteration (the callers' loop `for (i = 0; (v = next(&i, bi), i);)`) terminates
-      within `range + 2` calls and yields exactly the inserted values, each once,
+      within `range + 2` calls (signed containers: `2·range + 3`, i.e. the fuel given
+      in each statement) and yields exactly the inserted values, each once,
       in the container's order;
     * the membership test agrees with "was inserted".
   Statements only; helper lemmas live in Echse/Lemmas.
 -/
 import Echse.Lemmas.Bui
+import Echse.Lemmas.Bi
+import Echse.Lemmas.Big
 namespace C19
 open Echse.Bitint
 
@@ -42,5 +45,76 @@ theorem canon_unsigned_set (n : Nat) (xs : List Nat) (h : ∀ v ∈ xs, v < n) :
 -- hypotheses are inhabited by non-trivial sequences (zero, duplicates, top of range)
 example : (∀ v ∈ [0, 30, 5, 0], v ≤ 30) := by decide
 example : buiIterate 32 ([0, 30, 5, 0].foldl (assBui 32) 0) 33 0 = some [0, 5, 30] := by decide
+
+/-! ### signed containers -/
+
+/-- `bitint31_t`: iteration after inserting `xs` (values -31..31) yields `canonS 31 xs`:
+0, then the positives ascending, then the negatives by increasing magnitude. -/
+theorem bi31_iterate (xs : List Int) (h : ∀ v ∈ xs, -31 ≤ v ∧ v ≤ 31) :
+    biIterate 32 (xs.foldl (assBi 32) ⟨0, 0⟩) 65 0 = some (canonS 31 xs) :=
+  biIterate_of_R 32 (by omega) xs _ (fun v hv => by have := h v hv; omega)
+    (BiR_insertAll 32 (by omega) xs (fun v hv => by have := h v hv; omega)) 65 (by omega)
+
+/-- `bitint31_t`: membership. -/
+theorem bi31_member (xs : List Int) (x : Int) (h : ∀ v ∈ xs, -31 ≤ v ∧ v ≤ 31)
+    (hx : -31 ≤ x ∧ x ≤ 31) :
+    biHasBit 32 (xs.foldl (assBi 32) ⟨0, 0⟩) x = decide (x ∈ xs) :=
+  biHasBit_of_R 32 (by omega) xs _ x (fun v hv => by have := h v hv; omega) (by omega)
+    (BiR_insertAll 32 (by omega) xs (fun v hv => by have := h v hv; omega))
+
+/-- `bitint63_t`: iteration after inserting `xs` (values -63..63). -/
+theorem bi63_iterate (xs : List Int) (h : ∀ v ∈ xs, -63 ≤ v ∧ v ≤ 63) :
+    biIterate 64 (xs.foldl (assBi 64) ⟨0, 0⟩) 129 0 = some (canonS 63 xs) :=
+  biIterate_of_R 64 (by omega) xs _ (fun v hv => by have := h v hv; omega)
+    (BiR_insertAll 64 (by omega) xs (fun v hv => by have := h v hv; omega)) 129 (by omega)
+
+/-- `bitint63_t`: membership. -/
+theorem bi63_member (xs : List Int) (x : Int) (h : ∀ v ∈ xs, -63 ≤ v ∧ v ≤ 63)
+    (hx : -63 ≤ x ∧ x ≤ 63) :
+    biHasBit 64 (xs.foldl (assBi 64) ⟨0, 0⟩) x = decide (x ∈ xs) :=
+  biHasBit_of_R 64 (by omega) xs _ x (fun v hv => by have := h v hv; omega) (by omega)
+    (BiR_insertAll 64 (by omega) xs (fun v hv => by have := h v hv; omega))
+
+/-- `bitint383_t`: iteration after inserting `xs` (values -383..383), in native mode
+(at most 12 distinct values before the 13th insertion) and in degraded bitset mode alike. -/
+theorem bi383_iterate (xs : List Int) (h : ∀ v ∈ xs, -383 ≤ v ∧ v ≤ 383) :
+    bigIterate 12 (xs.foldl (assBig 12) Big.empty) 770 0 = some (canonS 383 xs) :=
+  bigIterate_of_R 12 (by omega) xs _ (fun v hv => by have := h v hv; omega)
+    (BigR_insertAll 12 (by omega) xs (fun v hv => by have := h v hv; omega)) 770 (by omega)
+
+/-- `bitint447_t`: iteration after inserting `xs` (values -447..447). -/
+theorem bi447_iterate (xs : List Int) (h : ∀ v ∈ xs, -447 ≤ v ∧ v ≤ 447) :
+    bigIterate 14 (xs.foldl (assBig 14) Big.empty) 900 0 = some (canonS 447 xs) :=
+  bigIterate_of_R 14 (by omega) xs _ (fun v hv => by have := h v hv; omega)
+    (BigR_insertAll 14 (by omega) xs (fun v hv => by have := h v hv; omega)) 900 (by omega)
+
+/-- the signed result list really is "each inserted value exactly once and nothing else". -/
+theorem canon_signed_set (m : Nat) (xs : List Int) (h : ∀ v ∈ xs, -(m:Int) ≤ v ∧ v ≤ m) :
+    (canonS (m+1) xs).Nodup ∧ ∀ x, x ∈ canonS (m+1) xs ↔ x ∈ xs :=
+  ⟨canonS_nodup (m+1) xs,
+   mem_canonS (m+1) xs (fun v hv => by have := h v hv; omega)⟩
+
+/-- same, at exactly the bound used in the iteration theorems (`canonS 31`, `canonS 383`, …). -/
+theorem canon_signed_set' (m : Nat) (xs : List Int) (h : ∀ v ∈ xs, -(m:Int) ≤ v ∧ v ≤ m) :
+    (canonS m xs).Nodup ∧ ∀ x, x ∈ canonS m xs ↔ x ∈ xs :=
+  ⟨canonS_nodup m xs, mem_canonS m xs h⟩
+
+-- non-trivial concrete instances (zero, duplicates, both ends of the range, degradation)
+example : (∀ v ∈ [0, -5, 31, -31], (-31:Int) ≤ v ∧ v ≤ 31) := by decide
+example : canonS 31 [0, -5, 31, -31] = [0, 31, -5, -31] := by decide
+example : biIterate 32 ([0, -5, 31, -31].foldl (assBi 32) ⟨0, 0⟩) 65 0 = some [0, 31, -5, -31] := by decide
+example : biIterate 32 ([-31, -1, -31, -7].foldl (assBi 32) ⟨0, 0⟩) 65 0 = some [-1, -7, -31] := by decide
+example : biIterate 32 ([-31].foldl (assBi 32) ⟨0, 0⟩) 65 0 = some [-31] := by decide
+example : biIterate 64 ([63, -63, 0, 1, -1].foldl (assBi 64) ⟨0, 0⟩) 129 0 = some [0, 1, 63, -1, -63] := by decide
+example : biHasBit 32 ([0, -5, 31, -31].foldl (assBi 32) ⟨0, 0⟩) (-31) = true := by decide
+example : biHasBit 32 ([0, -5, 31, -31].foldl (assBi 32) ⟨0, 0⟩) (-30) = false := by decide
+-- native mode (8 values ≤ 12) …
+example : bigIterate 12 ([1, 2, 3, -4, 5, 383, -383, -1].foldl (assBig 12) Big.empty) 770 0
+    = some [1, 2, 3, 5, 383, -1, -4, -383] := by decide
+-- … and degraded to bitset mode by the 13th insertion (16 values, 383 followed by negatives)
+example : bigIterate 12 ([1, 2, 3, 4, 5, 6, 7, 8, 9, 10, 11, 383, -1, -383, 0, -200].foldl (assBig 12) Big.empty) 770 0
+    = some [0, 1, 2, 3, 4, 5, 6, 7, 8, 9, 10, 11, 383, -1, -200, -383] := by decide +kernel
+example : bigIterate 14 ([447, -447, 0, 5, -5, 5, 1, 2, 3, 4, 6, 7, 8, 9, 10, 11, 12].foldl (assBig 14) Big.empty) 900 0
+    = some [0, 1, 2, 3, 4, 5, 6, 7, 8, 9, 10, 11, 12, 447, -5, -447] := by decide +kernel
 
 end C19
